@@ -536,7 +536,7 @@ func float64ToBigFloat(val float64, dest *big.Float) error {
 
 func float64ToFloat32(val float64) (float32, error) {
 	// this is the best we can do: convert from float64 to float32 is inherently lossy
-	if float64(float32(val)) != val {
+	if float64(float32(val)) != val && !math.IsNaN(val) {
 		return 0, errValueOutOfRange(val)
 	} else {
 		return float32(val), nil
